@@ -43,13 +43,42 @@ def replay_native(name, model):
     return bad, f"real function lists the column: {out!r}; expected statistics of the selection min={emn} max={emx}"
 
 
+def replay_frame():
+    """run the REAL function on a handle whose cached statistics are known, with filters; -> (confirmed, text)"""
+    import copy
+    from runtime.harness import import_fastparquet
+    import_fastparquet()
+    from fastparquet import api
+    cached = {"min": {"c": [1, 3, 5, 7]}, "max": {"c": [2, 4, 6, 8]}, "null_count": {"c": [0] * 4}, "distinct_count": {"c": [None] * 4}}
+
+    class PF:
+        columns = ["c"]
+        statistics = copy.deepcopy(cached)
+        _statistics = statistics
+    pf = PF()
+    attrs0 = dict(vars(pf))
+    s0, f0 = api.statistics, api.filter_row_groups
+    api.statistics = lambda h: copy.deepcopy(cached)
+    api.filter_row_groups = lambda h, filters, as_idx=False: [1, 3]
+    try:
+        first = api.sorted_partitioned_columns(pf, filters=[("c", ">", 2)])
+        second = api.sorted_partitioned_columns(pf, filters=[("c", ">", 2)])
+    except Exception as ex:
+        return True, f"real function raised {type(ex).__name__}: {ex} (second filtered call on the same handle)"
+    finally:
+        api.statistics, api.filter_row_groups = s0, f0
+    bad = pf.statistics != cached or vars(pf) != attrs0 or first != second
+    return bad, (f"after sorted_partitioned_columns(pf, filters) the handle's cached statistics are {pf.statistics['min']} / {pf.statistics['max']} "
+                 f"(were 4 entries per column); first call {first}, second call {second}")
+
+
 def p_sorted(ctx):
     ctx.assumptions += [a for a in c04_sorted.ASSUMED if a not in ctx.assumptions]
     for name, model in c04_sorted.check(ctx, 10000 if ctx.tier == "quick" else 60000):
         confirmed, text = (False, "symbolic ThriftObject: no native replay")
         if name.startswith("sorted_columns"):
             try:
-                confirmed, text = replay_native(name, model)
+                confirmed, text = replay_frame() if ("fresh_object" in name or "handle_not_mutated" in name) else replay_native(name, model)
             except Exception as ex:      # the replay helper failed: the violation stands, unconfirmed
                 confirmed, text = False, f"replay failed: {type(ex).__name__}: {ex}"
         ctx.violation(name, {"function": "api.sorted_partitioned_columns" if name.startswith("sorted") else "api.statistics",
